@@ -154,3 +154,34 @@ Definition no_write_inside_statement (tr : list event) : Prop :=
     tr = pre ++ e1 :: mid ++ e2 :: post ->
     sess_change e1 = true -> sess_change_or_log e2 = true -> ~ In Boundary mid ->
     Forall (fun e => is_write_ev e = false) mid.
+
+(* ------------------------------------------------------------------------------------ *)
+(* 4. Correspondence oracle: is an observed call sequence a path of an extracted program? *)
+(* ------------------------------------------------------------------------------------ *)
+(* Used by the check on the call sequences the Go driver records at the RelationManager
+   boundary while the real Evaluate* functions run (StartTxn -> LockShared, Fetch -> CacheTouch,
+   Insert/Update/MarkDeleted -> Mutate, FlushWALBatch -> LogAppend, EndTxn -> UnlockShared).
+   A test oracle (fuel-bounded backtracking), not used by any theorem. *)
+Definition action_eqb (a b : action) : bool :=
+  match a, b with
+  | LockShared, LockShared | UnlockShared, UnlockShared | LockExclusive, LockExclusive
+  | UnlockExclusive, UnlockExclusive | Mutate, Mutate | CacheTouch, CacheTouch
+  | LogAppend, LogAppend | PageWrite, PageWrite | HeaderWrite, HeaderWrite => true
+  | _, _ => false
+  end.
+
+Fixpoint matches (fuel : nat) (p : prog) (tr : list action) (k : list action -> bool) : bool :=
+  match fuel with
+  | 0 => false
+  | S f =>
+      match p with
+      | PSkip => k tr
+      | PAct a => match tr with x :: r => action_eqb a x && k r | [] => false end
+      | PSeq p q => matches f p tr (fun r => matches f q r k)
+      | PBranch p q => matches f p tr k || matches f q tr k
+      | PLoop q => k tr || matches f q tr (fun r => (length r <? length tr) && matches f (PLoop q) r k)
+      end
+  end.
+
+Definition is_path (p : prog) (tr : list action) : bool :=
+  matches (200 + 4 * length tr) p tr (fun r => match r with [] => true | _ => false end).
